@@ -687,6 +687,31 @@ func planCanon(p *Prog, stdlib, methods bool) canonPlan {
 						keep[pkgIdent(x.Fun)] = true
 						plan.expanded = append(plan.expanded, "ptr.Deref with a constant default")
 						return true
+					case "k8s.io/utils/ptr.Equal":
+						// Equal(P, &X) (or Equal(&X, P)) is P != nil && *P == X  (P a plain operand, &X is never nil)
+						if len(x.Args) != 2 || !free(x.Pos(), x.End()) {
+							return true
+						}
+						pi, ai := -1, -1
+						for i, a := range x.Args {
+							if u, isU := ast.Unparen(a).(*ast.UnaryExpr); isU && u.Op == token.AND && isPlainOperand(u.X) {
+								ai = i
+							} else if isPlainOperand(a) {
+								pi = i
+							}
+						}
+						if pi < 0 || ai < 0 {
+							return true
+						}
+						pt := in.text(x.Args[pi].Pos(), x.Args[pi].End())
+						ux := ast.Unparen(x.Args[ai]).(*ast.UnaryExpr).X
+						txt := "(" + pt + " != nil && *" + pt + " == " + in.text(ux.Pos(), ux.End()) + ")"
+						fe := in.file(x.Pos())
+						fe.edits = append(fe.edits, textEdit{start: in.off(x.Pos()), end: in.off(x.End()), text: txt})
+						taken = append(taken, [2]token.Pos{x.Pos(), x.End()})
+						keep[pkgIdent(x.Fun)] = true
+						plan.expanded = append(plan.expanded, "ptr.Equal with the address of a variable")
+						return true
 					case "slices.Sort":
 						// slices.Sort(x) for a []string / []int / []float64 is sort.Strings(x) / sort.Ints / sort.Float64s
 						if len(x.Args) != 1 || !free(x.Pos(), x.End()) {
@@ -1275,7 +1300,10 @@ func planCanon(p *Prog, stdlib, methods bool) canonPlan {
 	}
 	if methods {
 		planMethodRestore(p, in, &plan)
-		planAnchorRestore(p, in, &plan, map[*ast.FuncDecl]bool{})
+		skipDecl := map[*ast.FuncDecl]bool{}
+		planReceiverParamRestore(p, in, &plan, skipDecl)
+		planParamWiden(p, in, &plan, skipDecl)
+		planAnchorRestore(p, in, &plan, skipDecl)
 		planAnchorMoved(p, in, &plan)
 		planResultUngroup(p, in, &plan)
 		planFieldRestore(p, in, &plan)
